@@ -169,9 +169,12 @@ def invoke(sess: t.Any, role: str, call: t.Dict[str, t.Any], rnd: random.Random)
                 else:
                     obs["ret"] = sess.bind(msggen.r_text(rnd), s.SimpleCredential(msggen.r_text(rnd)), controls=ctl)
             elif k == "searchReq":
+                u_ = rnd.random()
+                # RFC 4526: (&) and (|) - empty composites - are filters in their own right, not "no filter"
+                flt = msggen.r_filter(rnd, 2) if u_ < 0.7 else None if u_ < 0.85 else s.FilterAnd([]) if u_ < 0.93 else s.FilterOr([])
+                obs["intent"] = {"filter": proj.filter_to_abstract(flt if flt is not None else s.FilterPresent("objectClass"))}
                 obs["ret"] = sess.search_request(msggen.r_text(rnd), rnd.randrange(3), rnd.randrange(4), abs(msggen.r_int(rnd)), abs(msggen.r_int(rnd)),
-                                                 rnd.random() < 0.5, msggen.r_filter(rnd, 2) if rnd.random() < 0.7 else None,
-                                                 [msggen.r_attr(rnd) for _ in range(rnd.randrange(3))], controls=ctl)
+                                                 rnd.random() < 0.5, flt, [msggen.r_attr(rnd) for _ in range(rnd.randrange(3))], controls=ctl)
             else:
                 obs["ret"] = sess.extended_request(msggen.r_oid(rnd), msggen.r_opt_bytes(rnd), controls=ctl)
         elif op == "send":
